@@ -27,7 +27,7 @@ PLAN = {
     "thorough": {"shards": 16, "shard_timeout": 3600, "case_timeout": 300, "maxlen": 8, "alg": 400000, "max_case_timeouts": 10},
 }
 THRESHOLDS = {
-    "quick": {"tracker_histories": 4000, "registrations_checked": 20000, "algorithm_runs": 150, "alg:gp": 20, "alg:rs": 20, "alg:hc": 20, "alg:opo": 20, "histories_with_ties": 1000, "minimising": 1500, "shared_evaluator_cases": 100, "shared_evaluator:parallel": 30, "presented_with_fitness": 100, "shared_evaluator_runs": 30, "searches_on_a_warm_tracker": 20, "second_search_calls": 20},
+    "quick": {"tracker_histories": 4000, "registrations_checked": 20000, "algorithm_runs": 150, "alg:gp": 20, "alg:rs": 20, "alg:hc": 20, "alg:opo": 20, "histories_with_ties": 1000, "minimising": 1500, "shared_evaluator_cases": 100, "shared_evaluator:parallel": 30, "presented_with_fitness": 100, "shared_evaluator_runs": 30, "searches_on_a_warm_tracker": 20, "second_search_calls": 20, "tracker_histories_tiny_values": 1000, "tracker_histories_huge_values": 1000},
     "thorough": {"tracker_histories": 12000, "registrations_checked": 80000, "algorithm_runs": 3800},
 }
 
@@ -39,6 +39,9 @@ def gen_cases(tier, seed):
         for minimize in (False, True):
             for multi in (False, True):
                 yield {"kind": "tracker", "len": ln, "minimize": minimize, "multi": multi}
+                if ln >= 2:  # the same exhaustive histories over values that differ far behind the decimal point / at a huge magnitude
+                    yield {"kind": "tracker", "len": ln, "minimize": minimize, "multi": multi, "scale": "tiny"}
+                    yield {"kind": "tracker", "len": ln, "minimize": minimize, "multi": multi, "scale": "huge"}
     rng = pyrandom.Random(f"c12-{seed}")
     for i in range(max(40, plan["alg"] // 4)):
         # individuals that reach the tracker already carrying a fitness (evaluated through the tracker's own evaluator by
@@ -57,6 +60,9 @@ def gen_cases(tier, seed):
             seq = [2] + [0] * (n - 2) + [5]
         else:
             seq = [rng.randint(0, 6) for _ in range(n)]
+        if rng.random() < 0.2:  # creeping improvements far behind the decimal point, or unit steps at a huge magnitude
+            f = rng.choice([1e-10, 1e-10, 1.0])
+            seq = [x * f + (1e10 if f == 1.0 else 0.0) for x in seq]
         yield {"kind": "alg", "alg": ["gp", "rs", "hc", "opo"][i % 4], "repr": rng.choice(["tree", "ge", "sge"]), "minimize": rng.random() < 0.5, "seq": seq, "budget": rng.randint(2, 40), "pop": rng.choice([2, 3, 5, 8]), "multi": rng.random() < 0.2, "warm": rng.choice([None, None, "pre-evaluated", "second-search"]), "seed": rng.randrange(10**6)}
 
 
@@ -224,7 +230,11 @@ def run_tracker(case, rec):
     pool = evo.individuals(rep, src, case["len"])
     R = evo.make_recorder_class()
     minimize, multi = case["minimize"], case["multi"]
-    for seq in itertools.product([0, 1, 2], repeat=case["len"]):
+    scale = case.get("scale")
+    pool_values = {None: [0, 1, 2], "tiny": [0.0, 3e-10, 8e-10], "huge": [1e10, 1e10 + 1, 1e10 + 2]}[scale]
+    if scale:
+        rec.count(f"tracker_histories_{scale}_values", 3 ** case["len"])
+    for seq in itertools.product(pool_values, repeat=case["len"]):
         from geneticengine.solutions.individual import Individual
 
         inds = [Individual(p.genotype, rep) for p in pool]
